@@ -7,6 +7,7 @@
 From Coq Require Import List Bool.
 From Coq.Strings Require Import String.
 Open Scope string_scope.
+From GV Require Skel.Emit.
 From GV Require Import Base.Bytes Base.Tok Skel.Compose.
 Import ListNotations.
 
@@ -44,7 +45,22 @@ Example C02_unterminated_comment_rejected :
   check_view Std (lex (lit "<div><v:rect><v:textbox><![endif]--><p>x</p></div>")) = false.
 Proof. repeat split; vm_compute; reflexivity. Qed.
 
+(* ---- unconditional for the modelled core of the grammar ----------------------------------
+   Skel/Emit.v is a hand port of what body / section (plain, full-width) / wrapper / group / column
+   and the leaves text, divider, spacer, image, button write (attributes and text erased; tied to
+   the code by token-for-token comparison with erased real outputs on every run).  For EVERY document
+   of that grammar - any number and nesting of blocks, sections, groups, columns and leaves, every
+   hand-over of the Outlook wrapper table between consecutive blocks - the standard reading is
+   well-formed.  No premise about observed outputs. *)
+Theorem C02_core_grammar_wellformed : forall b : Skel.Emit.body, ok_frag Std (Skel.Emit.emit_body b).
+Proof. exact (Skel.Emit.emit_body_ok Std). Qed.
+
+(* how Outlook-only markup is cut into conditional comments is invisible to the reading: the tie compares streams modulo this *)
+Theorem C02_conditional_segmentation_invisible : forall ts, ok_frag Std ts -> ok_frag Std (Skel.Emit.squash ts).
+Proof. exact (Skel.Emit.squash_ok Std). Qed.
+
 Print Assumptions C02_checker_sound.
 Print Assumptions C02_body_wellformed.
 Print Assumptions C02_fill_hole.
 Print Assumptions C02_merge_check_sound.
+Print Assumptions C02_core_grammar_wellformed.
